@@ -15,8 +15,8 @@
 (***************************************************************************)
 EXTENDS GeomValidate, TLC, Json
 CONSTANTS Tier               \* "quick" | "thorough" | "cov" (a small sub-universe of both, run with -coverage: every action is taken)
-VARIABLES kind, toks, pc, val, why, bud, vd      \* vd = <<ValidStrict, Valid, ValidLoose>> of (kind, toks), set at Begin
-vars == <<kind, toks, pc, val, why, bud, vd>>
+VARIABLES kind, toks, pc, val, why, bud, vd, num      \* vd = <<ValidStrict, Valid, ValidLoose>> of (kind, toks), set at Begin
+vars == <<kind, toks, pc, val, why, bud, vd, num>>      \* num = "lit" (tokens are values) | "fine" (tokens are codes of FineTable)
 
 F  == FMAXHZ
 Thorough == Tier = "thorough"
@@ -59,7 +59,7 @@ CloseOf(s, i, d) == LET d2 == d + Delta(s[i]) IN IF d2 = 0 THEN i ELSE CloseOf(s
 NodeEnd(s, p) == CloseOf(s, p, 0)                                                               \* last token of the node starting at p
 Node(s, p)    == SubSeq(s, p, NodeEnd(s, p))
 Splice(s, p, mid) == SubSeq(s, 1, p - 1) \o mid \o SubSeq(s, NodeEnd(s, p) + 1, Len(s))       \* replace node p by mid
-EdReplace(s) == {[s EXCEPT ![p] = v] : p \in {q \in 1..Len(s) : IsNum(s[q])}, v \in BadVals}   \* one scalar -> bad / boundary value
+EdReplace(s, bad) == {[s EXCEPT ![p] = v] : p \in {q \in 1..Len(s) : IsNum(s[q])}, v \in bad}   \* one scalar -> bad / boundary value
 EdDrop(s)    == {Splice(s, p, <<>>) : p \in NodePos(s) \ {1}}                                   \* drop a coordinate / point / ring / member
 EdInsert(s)  == {Splice(s, p, Node(s, p) \o <<1>>) : p \in NodePos(s) \ {1}}                    \* add a third coordinate / a scalar among lists
 EdDup(s)     == {Splice(s, p, Node(s, p) \o Node(s, p)) : p \in NodePos(s) \ {1}}               \* repeat a point / ring / member
@@ -68,7 +68,7 @@ EdUnwrap(s)  == {Splice(s, p, SubSeq(s, p + 1, NodeEnd(s, p) - 1)) :            
                     p \in {q \in ListPos(s) : q # 1 \/ Len(Kids(s)) = 1}}
 EdReverse(s) == {Splice(s, p, Wrap(Rev(Kids(Node(s, p))))) : p \in ListPos(s)}                  \* reverse a line / swap time and frequency
 EdEmpty(s)   == {Splice(s, p, <<OPEN, CLOSE>>) : p \in ListPos(s)}                              \* empty a member
-Edits(s) == EdReplace(s) \cup EdDrop(s) \cup EdInsert(s) \cup EdDup(s) \cup EdWrap(s) \cup EdUnwrap(s) \cup EdReverse(s) \cup EdEmpty(s)
+Edits(s, bad) == EdReplace(s, bad) \cup EdDrop(s) \cup EdInsert(s) \cup EdDup(s) \cup EdWrap(s) \cup EdUnwrap(s) \cup EdReverse(s) \cup EdEmpty(s)
 
 (* ---- the universe ---- *)
 FlatLists(n)  == UNION {[1..m -> Alpha] : m \in 0..n}
@@ -87,39 +87,59 @@ MemberCases   == {K("Polygon", L(rs)) : rs \in UNION {[1..m -> RingPool] : m \in
                  \cup {K("MultiPolygon", L(ps)) : ps \in UNION {[1..m -> PolyPool] : m \in 0..3}}
 SkelCases     == Skeletons
 CrossCases    == {K(k, sk.toks) : k \in Kinds, sk \in Skeletons}
-Edits1(s)     == {x \in Edits(s) : Len(x) >= 1}
+Edits1(s, bad) == {x \in Edits(s, bad) : Len(x) >= 1}
+
+(* ---- non-integer coordinates: the same machinery over the codes of FineTable ---- *)
+FineBad == {-1, 4, 6, 4999999, 5000001}        \* what a scalar is replaced by in a fine case
+FineSkeletons == {
+    K("TimeStamp", <<1>>), K("TimeInterval", <<OPEN, 5, 6, CLOSE>>), K("Point", P(2, 4999999)),
+    K("BoundingBox", <<OPEN, 6, 4999999, 5, 1, CLOSE>>),                                      \* to be sorted: times differ in the 7th decimal
+    K("LineString", L(<<P(6, 2), P(4, 7), P(5, 1)>>)),                                        \* to be reversed
+    K("MultiPoint", L(<<P(1, 1), P(5, 4999999)>>)),
+    K("Polygon", L(<<L(<<P(3, 2), P(5, 2), P(4, 7)>>)>>)),
+    K("MultiLineString", L(<<L(<<P(5, 2), P(6, 7)>>)>>)),                                     \* strictly forward by 3e-7 s
+    K("MultiLineString", L(<<L(<<P(3, 1), P(4, 2)>>), L(<<P(1, 4999999), P(2, 0)>>)>>)),      \* strictly forward by 2^-30 s
+    K("MultiPolygon", L(<<L(<<L(<<P(3, 2), P(4, 4999999), P(7, 1)>>)>>)>>)) }
+FineFlat  == {K(k, <<OPEN>> \o f \o <<CLOSE>>) : k \in {"TimeInterval", "Point"}, f \in [1..2 -> FineCodes]}
+             \cup {K("BoundingBox", <<OPEN>> \o f \o <<CLOSE>>) : f \in [1..4 -> {1, 5, 6, 4999999}]}
+             \cup {K(k, <<a>>) : k \in Kinds, a \in FineCodes}
+FineBase  == IF Cov THEN {c \in FineSkeletons : c.kind \in {"BoundingBox", "MultiLineString"}} ELSE FineSkeletons \cup FineFlat
 BaseCases     == IF Cov THEN ScalarCases \cup SkelCases \cup CrossCases
                  ELSE FlatCases \cup ScalarCases \cup NestCases \cup PointCases \cup MemberCases \cup SkelCases \cup CrossCases
 \* number of successive single-position faults applied to a base case (skeletons only)
-Budget(c)     == IF c \notin Skeletons THEN 0
+Budget(c)     == IF c \in FineSkeletons THEN 1
+                 ELSE IF c \notin Skeletons THEN 0
                  ELSE IF Cov THEN (IF c.kind \in {"Point", "LineString", "MultiLineString"} THEN 1 ELSE 0)
                  ELSE IF Thorough /\ c \in SmallSkeletons THEN 2 ELSE 1
 
 (* ---- the machine: generation by edits, then Impl, one action per layer of the validator chain ---- *)
-Init == /\ \E c \in BaseCases : kind = c.kind /\ toks = c.toks /\ bud = Budget(c)
+Init == /\ \/ \E c \in BaseCases : kind = c.kind /\ toks = c.toks /\ bud = Budget(c) /\ num = "lit"
+           \/ \E c \in FineBase : kind = c.kind /\ toks = c.toks /\ bud = (IF c \in FineSkeletons THEN 1 ELSE 0) /\ num = "fine"
         /\ pc = "gen" /\ val = toks /\ why = "" /\ vd = <<>>
 \* one more fault somewhere in the structure (an action, so that all workers share the generation)
 Edit     == /\ pc = "gen" /\ bud > 0
-            /\ \E e \in Edits1(toks) : toks' = e /\ val' = e
-            /\ bud' = bud - 1 /\ UNCHANGED <<kind, pc, why, vd>>
+            /\ \E e \in Edits1(toks, IF num = "fine" THEN FineBad ELSE BadVals) : toks' = e /\ val' = e
+            /\ bud' = bud - 1 /\ UNCHANGED <<kind, pc, why, vd, num>>
 Step(r, nextpc) == IF r.ok THEN pc' = nextpc /\ val' = r.val /\ why' = ""
                    ELSE pc' = "rejected" /\ val' = <<>> /\ why' = r.why
 \* submit the structure; Req's verdict under the three readings is recorded once (the laws below are checked in this state)
 Begin    == /\ pc = "gen" /\ pc' = "type" /\ bud' = 0
             /\ vd' = <<ValidStrict(kind, toks), Valid(kind, toks), ValidLoose(kind, toks)>>
-            /\ UNCHANGED <<kind, toks, val, why>>
-TypeStep == pc = "type" /\ Step(TypeLayer(kind, val), "v1") /\ UNCHANGED <<kind, toks, bud, vd>>
-V1Step   == pc = "v1" /\ Step(V1(kind, val), IF HasV2(kind) THEN "v2" ELSE "accepted") /\ UNCHANGED <<kind, toks, bud, vd>>
-V2Step   == pc = "v2" /\ Step(V2(kind, val), "accepted") /\ UNCHANGED <<kind, toks, bud, vd>>
+            /\ UNCHANGED <<kind, toks, val, why, num>>
+TypeStep == pc = "type" /\ Step(TypeLayer(kind, val), "v1") /\ UNCHANGED <<kind, toks, bud, vd, num>>
+V1Step   == pc = "v1" /\ Step(V1(kind, val), IF HasV2(kind) THEN "v2" ELSE "accepted") /\ UNCHANGED <<kind, toks, bud, vd, num>>
+V2Step   == pc = "v2" /\ Step(V2(kind, val), "accepted") /\ UNCHANGED <<kind, toks, bud, vd, num>>
 Next == Edit \/ Begin \/ TypeStep \/ V1Step \/ V2Step
 Spec == Init /\ [][Next]_vars /\ WF_vars(Next)
 
 Done == pc \in {"accepted", "rejected"}
-Export == Done => PrintT(<<"CASE", ToJson([kind |-> kind, toks |-> toks, c |-> Tree(toks)])>>)
+Export == Done => PrintT(<<"CASE", ToJson([kind |-> kind, toks |-> toks, c |-> Tree(toks), num |-> num,
+                                             vals |-> IF num = "fine" THEN FineTable ELSE <<>>])>>)
 
 (* ---- invariants ---- *)
 AtStart == pc = "type"                                                   \* laws of Valid / Normal are checked once per case
 IsValid == vd[2]
+FineCoding       == FineTableOK /\ (AtStart /\ num = "fine" => \A i \in DOMAIN toks : IsNum(toks[i]) => toks[i] \in FineCodes \cup {1})
 WellFormedCases  == AtStart => WellFormed(toks)                          \* the generators (incl. every edit) produce single nodes
 ParserAgrees     == AtStart => WellFormedDecl(toks) /\ (IsList(toks) => Kids(toks) = KidsDecl(toks))
 ImplIffValid     == (pc = "accepted" => IsValid) /\ (pc = "rejected" => ~IsValid)
